@@ -47,6 +47,11 @@ const (
 	// FaultUnexpectedEOF: the transport fails with io.ErrUnexpectedEOF itself
 	// (what crypto/tls reports for a truncated record).
 	FaultUnexpectedEOF = "unexpected-eof"
+	// FaultTemporary: a net.Error that calls itself temporary but is not a
+	// timeout (EINTR / ENOBUFS style); FaultShortTemporary: the same after
+	// part of the bytes were accepted.
+	FaultTemporary      = "temporary"
+	FaultShortTemporary = "short-temporary"
 )
 
 // ErrInjected is the arbitrary (non-EOF, non-timeout) injected error.
@@ -58,6 +63,16 @@ type TimeoutError struct{}
 func (TimeoutError) Error() string   { return "xport: injected i/o timeout" }
 func (TimeoutError) Timeout() bool   { return true }
 func (TimeoutError) Temporary() bool { return true }
+
+// TemporaryError is a net.Error with Temporary() == true and Timeout() == false.
+type TemporaryError struct{}
+
+func (TemporaryError) Error() string   { return "xport: injected temporary failure" }
+func (TemporaryError) Timeout() bool   { return false }
+func (TemporaryError) Temporary() bool { return true }
+
+// ErrTemporary is the injected temporary error value.
+var ErrTemporary net.Error = TemporaryError{}
 
 // ErrTimeout is the injected timeout error value.
 var ErrTimeout net.Error = TimeoutError{}
@@ -71,6 +86,8 @@ func FaultErr(kind string) error {
 		return ErrTimeout
 	case FaultUnexpectedEOF:
 		return io.ErrUnexpectedEOF
+	case FaultTemporary, FaultShortTemporary:
+		return ErrTemporary
 	default:
 		return ErrInjected
 	}
@@ -353,7 +370,7 @@ func (c *ScriptConn) Write(p []byte) (int, error) {
 	kind, hit := c.writeSideFault()
 	if hit {
 		n := 0
-		if kind == FaultShort {
+		if kind == FaultShort || kind == FaultShortTemporary {
 			n = len(p) / 2
 			c.Wrote = append(c.Wrote, p[:n]...)
 		}
